@@ -319,7 +319,7 @@ add_event_contract = Contract(
                  for k in ("StorageError", "AuthenticationError", "EngineError+", "Exception+")},
 )
 add_event_contract.ghost_params = ("r0",)
-add_event = REG.unit(Unit(P, "DBStorage.add_event", add_event_contract, props=["C03", "C04", "C05", "C06", "C07", "C14", "C16", "C19", "C20"], ghost_init=ghost_db,
+add_event = REG.unit(Unit(P, "DBStorage.add_event", add_event_contract, props=["C03", "C04", "C05", "C06", "C07", "C08", "C09", "C14", "C16", "C19", "C20"], ghost_init=ghost_db,
                           canaries=[("never-stores", "not result[1]")]))
 add_event.obligation_props = [
     ("sql:insert-only-validated", ["C03", "C16"]), ("sql:insert-only-authorized", ["C14"]), ("sql:insert-is-the-submitted", ["C04", "C03"]),
@@ -329,8 +329,8 @@ add_event.obligation_props = [
     ("only-authorized", ["C14"]), ("only-newly-stored", ["C06", "C05"]), ("after-commit", ["C07"]),
     ("post:accepted-only-validated-and-authorized", ["C03", "C14", "C16"]),
     ("post:flag-iff", ["C06"]), ("post:returns-the", ["C06"]), ("post:stored-event", ["C06"]), ("post:duplicate", ["C06"]), ("post:broadcast-iff", ["C06", "C05"]),
-    ("post:transaction-closed", ["C07"]), ("post:single-transaction", ["C07"]), ("sql:", ["C07"]),
-    ("excpost:", ["C06", "C07"]), ("call:", ["C07"]), ("exc:", ["C19"]),
+    ("post:transaction-closed", ["C07"]), ("post:single-transaction", ["C07", "C08", "C09"]), ("sql:", ["C07", "C08", "C09"]),
+    ("excpost:", ["C06", "C07", "C08", "C09"]), ("call:", ["C07", "C08", "C09"]), ("exc:", ["C19", "C08", "C09"]),
 ]
 
 
